@@ -141,7 +141,10 @@ def unit_maybe_quote():
 
 
 def units():
-    return [('C12/set_conf/args%d' % n, unit_set_conf(n)) for n in (1, 2, 3, 4)] + [('C12/maybe_quote', unit_maybe_quote())]
+    from props import C01
+    # the callee contract used above (one command written verbatim + CRLF) is itself an obligation here
+    return ([('C12/set_conf/args%d' % n, unit_set_conf(n)) for n in (1, 2, 3, 4)] + [('C12/maybe_quote', unit_maybe_quote())] +
+            [('C12/queue_command@%s/str' % st, C01.unit_queue_command(st, 'str')) for st in ('IDLE', 'RECV')])
 
 
 # ==========================================================================================
@@ -175,3 +178,7 @@ def replay_file(doc):
         return _replay_twin(doc)
     unit, name = doc['obligation'].split('::')
     return replay(unit, name, doc['model'])
+
+
+def make_models_for(unit_name):
+    return K.ControlModels() if '/queue_command@' in unit_name else SetConfModels()
